@@ -155,9 +155,8 @@ class CP1Disk(CP1Object):
 
         res = np.arctan(center_norm + radius) - np.arctan(center_norm - radius)
         inverted = ~self.center_inside()
-        res[inverted] = np.pi - res[inverted]
 
-        return res
+        return np.where(inverted, np.pi - res, res)
 
     def fs_center(self):
         center, radius = self.circle_parameters()
